@@ -785,3 +785,261 @@ def Outcome.kept (o : Outcome) : Bool :=
   o.modelled && (o.heading.isSome || (o.toAttr && o.attrShown) || o.reported)
 
 end Fields
+
+/-! ## `restructuredtext._SplitFieldsTranslator.handle_consolidated_bullet_list`: the separator after `` `name` ``
+
+```
+text = fbody[0][0].astext()
+if text[:1] in ':-':             fbody[0][0] = nodes.Text(text[1:].lstrip())
+elif text[:2] in (' -', ' :'):   fbody[0][0] = nodes.Text(text[2:].lstrip())
+```
+(`text[:1] in ':-'` is a substring test: it also holds for the empty string.) -/
+namespace Rst
+open Epytext (pyIsSpace)
+
+/-- `s.lstrip()` -/
+def lstrip (s : List Char) : List Char := s.dropWhile pyIsSpace
+
+def stripSeparator (text : List Char) : List Char :=
+  if text.take 1 = [] ∨ text.take 1 = [':'] ∨ text.take 1 = ['-'] then lstrip (text.drop 1)
+  else if text.take 2 = [' ', '-'] ∨ text.take 2 = [' ', ':'] then lstrip (text.drop 2)
+  else text
+
+end Rst
+
+/-! ## `FieldHandler`: the Parameters table (`handle_param`, `handle_keyword`, `handle_type` of a function,
+`resolve_types`, the part of `format` that decides whether the table is shown)
+
+Names and texts are numbers.  `VariableArgument` / `KeywordArgument` are `str` subclasses: a field name
+takes the class of the signature parameter it equals (`_handle_param_name`), so the kind is a function of
+the name (`Sig.kwargName`). -/
+namespace Params
+
+inductive Origin | ast | doc
+  deriving DecidableEq, Repr
+
+/-- `ParamType(stan, origin)` -/
+structure PType where
+  text : Nat
+  origin : Origin
+  deriving DecidableEq, Repr
+
+/-- `ParamDesc` / `KeywordDesc` -/
+structure Desc where
+  name : Nat
+  body : Option Nat
+  isKw : Bool
+  type : Option Nat
+  origin : Option Origin
+  deriving DecidableEq, Repr
+
+inductive ReportKind | duplicate | notFound | asKeyword
+  deriving DecidableEq, Repr
+
+/-- what `resolve_types` needs to know about the documented function -/
+structure Sig where
+  /-- `annotations.items()` without `'return'`: parameter name, formatted annotation if any -/
+  params : List (Nat × Option Nat)
+  /-- the `**kwargs` parameter (`KeywordArgument`) -/
+  kwargName : Option Nat
+  /-- `self` of a method / `cls` of a class method: dropped from the table when it comes first and is not documented -/
+  selfName : Option Nat
+  deriving Repr
+
+structure FH where
+  /-- `self.types`, an insertion-ordered dict -/
+  types : List (Nat × Option PType)
+  /-- `self.parameter_descs` -/
+  descs : List Desc
+  reports : List (ReportKind × Nat)
+  deriving Repr
+
+/-- `d[k] = v` -/
+def dictSet {β} (d : List (Nat × β)) (k : Nat) (v : β) : List (Nat × β) :=
+  if d.any (·.1 == k) then d.map (fun p => if p.1 == k then (k, v) else p) else d ++ [(k, v)]
+
+def dictHas {β} (d : List (Nat × β)) (k : Nat) : Bool := d.any (·.1 == k)
+
+/-- `set_param_types_from_annotations` -/
+def init (s : Sig) : FH :=
+  ⟨s.params.foldl (fun d p => dictSet d p.1 (p.2.map fun t => ⟨t, .ast⟩)) [], [], []⟩
+
+inductive Event
+  | param (name text : Nat)
+  | keyword (name text : Nat)
+  | type (name text : Nat)
+  deriving DecidableEq, Repr
+
+def step (fh : FH) : Event → FH
+  | .type n t =>
+    -- handle_type, Function branch
+    let rep := if !dictHas fh.types n && !fh.descs.any (·.name == n) then [(ReportKind.notFound, n)] else []
+    { fh with types := dictSet fh.types n (some ⟨t, .doc⟩), reports := fh.reports ++ rep }
+  | .param n t =>
+    let dup := if fh.descs.any (·.name == n) then [(ReportKind.duplicate, n)] else []
+    let nf := if !dictHas fh.types n then [(ReportKind.notFound, n)] else []
+    { fh with descs := fh.descs ++ [⟨n, some t, false, none, none⟩], reports := fh.reports ++ dup ++ nf }
+  | .keyword n t =>
+    let dup := if fh.descs.any (·.name == n) then [(ReportKind.duplicate, n)] else []
+    let ak := if dictHas fh.types n then [(ReportKind.asKeyword, n)] else []
+    { fh with descs := fh.descs ++ [⟨n, some t, true, none, none⟩], reports := fh.reports ++ dup ++ ak }
+
+/-- `{param.name: param for param in self.parameter_descs}` -/
+def paramsDict (descs : List Desc) : List (Nat × Desc) := descs.foldl (fun d p => dictSet d p.name p) []
+
+/-- the `for index, (name, param_type) in enumerate(self.types.items())` loop:
+(rows in order, what is left in `params`, `any_info` contributions) -/
+def resolveLoop (s : Sig) : List (Nat × Option PType) → Nat → List (Nat × Desc) → List Desc × List (Nat × Desc) × Bool
+  | [], _, params => ([], params, false)
+  | (name, pt) :: rest, index, params =>
+    match params.lookup name with
+    | some d =>
+      -- params.pop(name); param.type / param.type_origin are set from the type
+      let r := resolveLoop s rest (index + 1) (params.filter (·.1 != name))
+      ({ d with type := pt.map (·.text), origin := pt.map (·.origin) } :: r.1, r.2.1, r.2.2)
+    | none =>
+      if index == 0 && s.selfName == some name then resolveLoop s rest (index + 1) params
+      else
+        let r := resolveLoop s rest (index + 1) params
+        (⟨name, none, false, pt.map (·.text), pt.map (·.origin)⟩ :: r.1, r.2.1, r.2.2 || pt.isSome)
+
+def Desc.isDocumented (d : Desc) : Bool := d.body.isSome || d.origin == some .doc
+
+/-- `resolve_types` -/
+def resolveTypes (s : Sig) (fh : FH) : List Desc :=
+  let params := paramsDict fh.descs
+  let r := resolveLoop s fh.types 0 params
+  let anyInfo := !params.isEmpty || r.2.2
+  let descs := if anyInfo then r.1 ++ r.2.1.map (·.2) else fh.descs
+  -- the **kwargs entry
+  let kwargs := (descs.filter fun p => some p.name == s.kwargName).getLast?
+  let hasKeywords := descs.any fun p => some p.name != s.kwargName && p.isKw
+  match kwargs with
+  | none => descs
+  | some k =>
+    let without := descs.erase k
+    if !hasKeywords || k.isDocumented then without ++ [k] else without
+
+/-- rows of the "Parameters" table of `format()` (empty = the table is not shown) -/
+def rows (s : Sig) (fh : FH) : List Desc :=
+  let ds := resolveTypes s fh
+  if ds.any Desc.isDocumented then ds else []
+
+def run (s : Sig) (es : List Event) : FH := es.foldl step (init s)
+
+end Params
+
+/-! ## `astbuilder._handlePropertyDef`: where the fields of a property's docstring go
+
+```
+for field in pdoc.fields:
+    tag = field.tag()
+    if tag == 'return':
+        if not pdoc.has_body: pdoc = field.body(); attr.docstring = ''
+        else: other_fields.append(field)
+    elif tag == 'rtype': attr.parsed_type = field.body()
+    else: other_fields.append(field)
+pdoc.fields = other_fields
+``` -/
+namespace Property
+
+inductive PTag | ret | rtype | other
+  deriving DecidableEq, Repr
+
+/-- a field: tag, text, whether its body is non-empty (`field.body().has_body`) -/
+structure PField where
+  tag : PTag
+  text : Nat
+  hasBody : Bool
+  deriving DecidableEq, Repr
+
+structure PState where
+  /-- `pdoc.has_body` of the current `pdoc` -/
+  hasBody : Bool
+  /-- the field whose body became the description -/
+  description : Option Nat
+  parsedType : Option Nat
+  otherFields : List PField
+  deriving DecidableEq, Repr
+
+def pstep (st : PState) (f : PField) : PState :=
+  match f.tag with
+  | .ret =>
+    if !st.hasBody then { st with hasBody := f.hasBody, description := some f.text }
+    else { st with otherFields := st.otherFields ++ [f] }
+  | .rtype => { st with parsedType := some f.text }
+  | .other => { st with otherFields := st.otherFields ++ [f] }
+
+def handle (docHasBody : Bool) (fields : List PField) : PState :=
+  fields.foldl pstep ⟨docHasBody, none, none, []⟩
+
+end Property
+
+/-! ## `epydoc2stan.extract_fields`: which attribute of a module / class gets which text
+
+```
+for field in parsed_doc.fields:
+    tag = field.tag()
+    if tag in ['ivar', 'cvar', 'var', 'type']:
+        arg = field.arg()
+        if arg is None: obj.report("Missing field name in @%s" % (tag,), …); continue
+        attrobj = obj.contents.get(arg)
+        if attrobj is None: attrobj = Attribute(…); attrobj.kind = None; …addObject
+        …
+        if tag == 'type': attrobj.parsed_type = field.body()
+        else: attrobj.parsed_docstring = field.body(); attrobj.kind = field_name_to_kind[tag]
+```
+and `get_parsed_type` (what the attribute's page shows as its type). -/
+namespace Attrs
+open Params (dictSet)
+
+inductive VTag | ivar | cvar | var | type | other
+  deriving DecidableEq, Repr
+
+structure AField where
+  tag : VTag
+  name : Option Nat
+  text : Nat
+  deriving DecidableEq, Repr
+
+/-- what `extract_fields` can change of an `Attribute` -/
+structure AttrV where
+  doc : Option Nat          -- parsed_docstring
+  type : Option Nat         -- parsed_type
+  hasKind : Bool            -- kind is not None (the attribute is displayed)
+  deriving DecidableEq, Repr
+
+structure AState where
+  /-- `obj.contents` restricted to attributes, in insertion order -/
+  attrs : List (Nat × AttrV)
+  /-- indices of the fields reported with "Missing field name" -/
+  missing : List Nat
+  deriving Repr
+
+def astep (st : AState) (i : Nat) (f : AField) : AState :=
+  if f.tag = .other then st else
+  match f.name with
+  | none => { st with missing := st.missing ++ [i] }
+  | some n =>
+    let cur := (st.attrs.lookup n).getD ⟨none, none, false⟩
+    let upd : AttrV := if f.tag = .type then { cur with type := some f.text } else { cur with doc := some f.text, hasKind := true }
+    { st with attrs := dictSet st.attrs n upd }
+
+def runFrom (st : AState) : Nat → List AField → AState
+  | _, [] => st
+  | i, f :: fs => runFrom (astep st i f) (i + 1) fs
+
+/-- `extract_fields(obj)` with the attributes the AST builder already created for the body -/
+def extract (existing : List (Nat × AttrV)) (fields : List AField) : AState := runFrom ⟨existing, []⟩ 0 fields
+
+/-- `get_parsed_type(attr)`: `parsed_type`, else the last `type` field of the attribute's own docstring
+(87738b5), else the annotation -/
+def shownType (parsedType : Option Nat) (ownTypeFields : List Nat) (annotation : Option Nat) : Option Nat :=
+  match parsedType with
+  | some t => some t
+  | none =>
+    match ownTypeFields.getLast? with
+    | some t => some t
+    | none => annotation
+
+end Attrs
